@@ -229,6 +229,11 @@ def r186_origin(P, u, rep):
                    'read_macro_args': cut_args, 'equal': cut_equal},
            'opaque': ['hideset_contains', 'find_macro', 'hideset_union', 'hideset_intersection', 'new_hideset'],
            'track_stores': True, 'loop_limit': 2}
+    # any other helper of the unit that makes a token list from a token list (e.g. a pass applying ## to an object-like body) is a
+    # producer of fresh tokens as far as this rule is concerned: what matters is that expand_macro stamps the final list
+    for hname, hfd in u.functions.items():
+        if hname != fn and hname not in cfg['cut'] and hname not in cfg['opaque'] and (hfd.type or '').split('(')[0].strip().replace(' ', '') == 'Token*':
+            cfg['cut'][hname] = fresh(hname)
     it = Interp(P, u, cfg)
     def mk(ctx):
         return [Sym('rest', 'Token **'), Obj('Token', lazy=True, label='tok')]
